@@ -46,7 +46,7 @@ var hookSpecs = map[string]hookSpec{
 // recordField projects a field of a written record term (BaseAuction fields through the embedded struct).
 func recordField(v *Term, name string, auction bool) *Term {
 	if name == "EndTimes[0]" {
-		return mk("elem", "0", nil, recordField(v, "EndTimes", auction))
+		return elemOf(recordField(v, "EndTimes", auction), "0", nil)
 	}
 	if auction && auctionBaseFields[name] {
 		return normField(projEmbedded(v, "~BaseAuction", nil), name, nil)
